@@ -223,6 +223,15 @@ Theorem C03_benign_status_traffic_inert :
 Proof. split; [exact refresh_keeps_ownership_in_source|exact run_sop_refresh]. Qed.
 Print Assumptions C03_benign_status_traffic_inert.
 
+(* concurrent roster traffic of another environment: no whole-roster write of the task manager puts
+   back a snapshot kept across a Mesos call (translator rosterwrite, every run), and in the model the
+   probe "every task of the environment is in the roster" holds at every sampling point - checked on
+   the implementation where the teardown of another environment overlaps the deployment *)
+Theorem C03_tasks_stay_in_roster :
+  roster_writes_fresh = true /\ (forall s, wo_rostered (observe s) = true).
+Proof. split; [exact roster_writes_fresh_in_source|exact observe_rostered]. Qed.
+Print Assumptions C03_tasks_stay_in_roster.
+
 (* the interleaving the harness forces (corpus cases corpus-overtaken-...): the ERROR update of the
    dying critical task is stopped between its two halves, a late RUNNING reply of the same task runs
    to its end, the first goes on: ERROR, run end stamped, although the role reports RUNNING *)
